@@ -2,7 +2,12 @@
    Case line: <root> <seed> | <env> | <ty> | <tsd> | <float table>   (see harness/src/serde_typed.rs)
    Model column: the same fields as the implementation prints.
    Spec column: what the property demands (rt, sh, sh32, vrt) on its domain, plus the
-   model's classification K of the datum into the known-finding classes. *)
+   model's classification K of the datum into the known-finding classes and L64 (every f64
+   leaf agrees with its spelling at binary32: the premise of C16_shape32 on f64 leaves).
+   sh32 in the model column is the model's shape_of true / shape_of_sj true (C16_shape32_model);
+   in the spec column it is demanded on the theorem's domain and is elsewhere the
+   SPECIFICATION's own evaluation shape32 = shape32_sj (Spec/SerdeShape32.v): the two readings
+   of numbers (deserialize_f32's / sgl's) are thereby compared on every case. *)
 open Model
 open Glue
 
@@ -300,12 +305,14 @@ let run (toks : str list) : str * str =
             | Panic _ -> ("PANIC", "-", false)
             | OutOfFuel -> ("FUEL", "-", false) in
           (* serde_json *)
+          let sh32s = ref false in
           let (sj_s, sh, sh32, via_s, vrt) =
             match ser_sj d with
             | Ok j ->
               let (sh, sh32) =
                 match sv with
                 | Ok v ->
+                  sh32s := shape_eqb (shape32 v) (shape32_sj j);
                   (shape_eqb (shape_m false v) (shape_of_sj false j),
                    shape_eqb (shape_m true v) (shape_of_sj true j))
                 | _ -> (false, false) in
@@ -315,6 +322,12 @@ let run (toks : str list) : str * str =
                | Panic _ -> (enc_sj j, sh, sh32, "PANIC", false)
                | OutOfFuel -> (enc_sj j, sh, sh32, "FUEL", false))
             | _ -> ("E", false, false, "-", false) in
+          let sh32s = !sh32s in
+          (* premise of C16_shape32 / C16_shape32_model on the f64 leaves: spelling and double
+             have the same nearest binary32 (both readings) *)
+          let l64 =
+            f64_leaves_agree32 fmt64_m d
+            && List.for_all (fun b -> nkey_eqb (num_key true (fmt64_m b)) (key_of_float true b)) (f64_leaves d) in
           (* the float hypotheses of the theorems, on every recorded spelling *)
           let hyp =
             List.for_all (fun (b, s) ->
@@ -322,6 +335,7 @@ let run (toks : str list) : str * str =
                 && nkey_eqb (num_key false s) (key_of_f64 b)) !tab64
             && List.for_all (fun (b, s) ->
                 de_f32 s = f32_norm b
+                && sf32_bits (sgl s) = b
                 && (match List.assoc_opt (f64_of_f32 b) !tabsj with
                     | Some sj -> de_f32 sj = b
                     | None -> false)) !tab32
@@ -344,9 +358,9 @@ let run (toks : str list) : str * str =
                | Panic _ -> "PANIC"
                | OutOfFuel -> "FUEL") in
           let spec =
-            Printf.sprintf "rt=%s sh=%s sh32=%s vrt=%s K=%s"
-              (b01 (want dom rt)) (b01 (want (dom && no_f32 d) sh)) (b01 (want dom sh32))
-              (b01 (want dom vrt)) (b01 kc) in
+            Printf.sprintf "rt=%s sh=%s sh32=%s vrt=%s K=%s L64=%s"
+              (b01 (want dom rt)) (b01 (want (dom && no_f32 d) sh)) (b01 (want (dom && l64) sh32s))
+              (b01 (want dom vrt)) (b01 kc) (b01 l64) in
           (model, spec)
         | _ -> raise (Bad_case "ty |"))
      | _ -> raise (Bad_case "env |"))
